@@ -528,25 +528,34 @@ String File::getRelativePath(const String& from, const String& to)
   String simTo = simplifyPath(to);
   if(simFrom == simTo)
     return String(".");
-  simFrom.append('/');
-  if(String::compare((const char*)simTo, (const char*)simFrom, simFrom.length()) == 0)
-    return String((const char*)simTo + simFrom.length(), simTo.length() - simFrom.length());
-  String result("../");
-  while(simFrom.length() > 0)
+  if(simFrom.isEmpty())
+    return simTo; // from is the current directory
+  if(!simFrom.endsWith("/"))
+    simFrom.append('/');
+  String simToDir = simTo; // with a trailing separator a directory matches itself as a prefix
+  if(!simToDir.endsWith("/"))
+    simToDir.append('/');
+  String result;
+  for(;;)
   {
-    simFrom.resize(simFrom.length() - 1);
-    const char* newEnd = simFrom.findLast('/');
-    if(!newEnd)
-      break;
-    simFrom.resize((newEnd - (const char*)simFrom) + 1);
-    if(String::compare((const char*)simTo, (const char*)simFrom, simFrom.length()) == 0)
+    if(String::compare((const char*)simToDir, (const char*)simFrom, simFrom.length()) == 0)
     {
-      result.append(String((const char*)simTo + simFrom.length(), simTo.length() - simFrom.length()));
+      if(simTo.length() > simFrom.length())
+        result.append(String((const char*)simTo + simFrom.length(), simTo.length() - simFrom.length()));
+      else if(!result.isEmpty())
+        result.resize(result.length() - 1); // to is the directory reached by the "../" steps
       return result;
     }
     result.append("../");
+    simFrom.resize(simFrom.length() - 1);
+    const char* newEnd = simFrom.findLast('/');
+    if(!newEnd)
+    { // relative paths without a common leading directory
+      result.append(simTo);
+      return result;
+    }
+    simFrom.resize((newEnd - (const char*)simFrom) + 1);
   }
-  return String();
 }
 
 String File::getAbsolutePath(const String& path)
